@@ -103,7 +103,9 @@ def main():
             opts += ['--max-inline-score', '0'] if '--max-inline-score' not in opts else []
         jobs2.append({'tid': tid, 'deck': d, 'opts': opts})
     ijobs, ind = integration_jobs(rng, thorough, base_tid + len(more))
-    recs2 = [r for r in conv.run_batch(deckrun.run_deck, jobs2 + ijobs, chunksize=8)]
+    core.lap('more generators')
+    recs2 = [r for r in conv.run_batch(deckrun.run_deck, jobs2 + ijobs, chunksize=2)]
+    core.lap('converter x%d (families + integration decks)' % len(jobs2 + ijobs))
     for r in recs2:
         if 'machinery_error' in r:
             chk.machinery(r['machinery_error'])
@@ -115,6 +117,7 @@ def main():
     except tlc.TLCFailure as exc:
         chk.machinery(str(exc))
         verdicts2 = {}
+    core.lap('TraceDeck validation 2')
     for r in recs2:
         recs[r['tid']] = r
         r['deckname'] = names.get(r['tid'])
